@@ -23,7 +23,7 @@ def prehistory(b, name, n, reserve=True, readback=False):
             forms = [f for f in b.cat["reserve_forms"] if f not in b.cat["array_forms"]]
             if forms:
                 f = rng.pick(forms)
-                b.raw("reserve_items %s %s [%s]" % (name, f, ",".join(b.r(v) for v in vs)), ("eq", "ok"), shape="rsvi")
+                b.raw("reserve_items %s %s [%s]" % (name, f + ("~" if rng.below(2) else ""), ",".join(b.r(v) for v in vs)), ("eq", "ok"), shape="rsvi")
         elif r < 10 and reserve and b.cat["caps"]["reserve_regions"] and b.stack is None:
             others = [h for h in b.h if h != name or b.cat["caps"]["clone"]]
             srcs = [rng.pick(others) for _ in range(rng.below(3))] if others else []
